@@ -62,6 +62,11 @@ ENV_ASSUME = ['virtual time and quiescence come from testing/synctest (go1.26.8)
 prop('C06', harness='envsched', kind='test', modes=RACE_MODES, procs=PROCS, floor=1000, batches={'quick': 8, 'thorough': 16}, assumptions=ENV_ASSUME)
 prop('C07', harness='envsched', kind='test', modes=RACE_MODES, procs=PROCS, level='fault_enumeration', floor=1000, batches={'quick': 8, 'thorough': 16}, assumptions=ENV_ASSUME + ['both the value and the error channel are eventually read (the property\'s proviso): the end game drains both concurrently'])
 prop('C08', harness='envsched', kind='test', modes={'quick': ['race', 'plain'], 'thorough': ['race', 'plain']}, procs=PROCS, floor=1000, batches={'quick': 8, 'thorough': 16}, assumptions=ENV_ASSUME + ['a send that raced with cancel() is an open operation: it may or may not be delivered; if delivered it must keep order', 'porcupine v1.3.0 decides linearizability of the recorded histories; a checker timeout is inconclusive'])
+prop('C09', harness='envsched', kind='test', modes=RACE_MODES, procs=PROCS, floor=1000, batches={'quick': 8, 'thorough': 16}, assumptions=ENV_ASSUME)
+prop('C10', harness='envsched', kind='test', modes=RACE_MODES, procs=PROCS, floor=300, batches={'quick': 8, 'thorough': 16}, assumptions=ENV_ASSUME + ['monoids are commutative and associative on the generated inputs (wrapping int arithmetic)'])
+prop('C11', harness='envsched', kind='test', modes=RACE_MODES, procs=PROCS, floor=1000, batches={'quick': 8, 'thorough': 16}, assumptions=ENV_ASSUME)
+prop('C12', harness='envsched', kind='test', modes=RACE_MODES, procs=PROCS, floor=1000, batches={'quick': 8, 'thorough': 16}, assumptions=ENV_ASSUME)
+prop('C13', harness='envsched', kind='test', modes=RACE_MODES, procs=PROCS, floor=1000, batches={'quick': 8, 'thorough': 16}, assumptions=ENV_ASSUME)
 prop('C05', harness='envsched', kind='test', modes=RACE_MODES, procs=PROCS, floor=1000, batches={'quick': 8, 'thorough': 16}, assumptions=ENV_ASSUME)
 
 # ---------------------------------------------------------------------------
